@@ -14,7 +14,9 @@ const R_LINES: bool = true;
 
 fn esc_char(rng: &mut Rng, c: char, quote: char) -> String {
     let plain = c != quote && c != '\\' && !(c as u32 <= 0x1f);
-    match rng.below(if plain { 6 } else { 3 }) {
+    // control characters (a raw line break, CR, TAB, NUL inside the quotes) are legal spellings too: one time in four
+    let raw_ctl = c != quote && c != '\\' && (c as u32 <= 0x1f);
+    match rng.below(if plain { 6 } else if raw_ctl { 4 } else { 3 }) {
         0 => format!("\\u{{{:02x}}}", c as u32),
         1 if (c as u32) < 0x80 => format!("\\x{:02X}", c as u32),
         2 | 1 => match c { '\n' => "\\n".into(), '\r' => "\\r".into(), '\t' => "\\t".into(), '\0' => "\\0".into(), '\\' => "\\\\".into(), '"' => "\\\"".into(), '\'' => "\\'".into(), c => format!("\\u{{{:04X}}}", c as u32) },
@@ -126,7 +128,7 @@ fn main() {
                         NodeTag(x, _) => fix(x),
                         _ => {} } } fix(&mut r.expr); r }).collect();
                 // some literals mix ASCII, non-ASCII and characters that must be escaped
-                let rules: Vec<Rule> = rules.into_iter().map(|mut r| { fn rich(e: &mut Expr, rng: &mut Rng) { use Expr::*; match e { Str(s) | Insens(s) => { if rng.chance(1, 5) { *s = rng.pick(&["aé", "é→\n", "\"q\\", "a\tb", "嗨a", "x\u{0}", "→'"]).to_string(); } }
+                let rules: Vec<Rule> = rules.into_iter().map(|mut r| { fn rich(e: &mut Expr, rng: &mut Rng) { use Expr::*; match e { Str(s) | Insens(s) => { if rng.chance(1, 5) { *s = rng.pick(&["aé", "é→\n", "\"q\\", "a\tb", "嗨a", "x\u{0}", "→'", "a\r\nb", "\r\n", "\r\r\n\n"]).to_string(); } }
                         RepExact(x, _) | RepMax(x, _) | RepMinMax(x, _, _) | RepMin(x, _) | PosPred(x) | NegPred(x) | Opt(x) | Rep(x) | RepOnce(x) | Push(x) => rich(x, rng), Seq(a, b) | Choice(a, b) => { rich(a, rng); rich(b, rng) }
                         #[cfg(feature = "extras")]
                         NodeTag(x, _) => rich(x, rng),
